@@ -267,17 +267,20 @@ def gen_val(f, rng, big=False):
             return rng.choice(K.der_certs()[:6])
         if f is K.SPKI:
             return rng.choice(K.spkis())
-        return gen_val(f[2], rng, big)
+        for attempt in range(8):        # the body must fit the length field (256 bytes do not fit a 1-byte count)
+            v = gen_val(f[2], rng, big and attempt == 0)
+            try:
+                if len(F.enc(f[2], v)) < 256 ** f[1]:
+                    return v
+            except NoFit:
+                pass
+        raise AssertionError('cannot generate a body that fits %r' % (f[:2],))
     if k == 'Rep':
-        out = [gen_val(f[1], rng, big) for _ in range(rng.choice([0, 1, 1, 2, 3]))]
-        if f[1][0] == 'Tag' and len(f[1]) > 4:      # extension lists: one extension per type (TLS forbids duplicates)
-            seen, uniq = set(), []
-            for e in out:
-                if e.t not in seen:
-                    seen.add(e.t)
-                    uniq.append(e)
-            out = uniq
-        return out
+        return [gen_val(f[1], rng, big) for _ in range(rng.choice([0, 1, 1, 2, 3]))]
+    if k == 'Check':         # draw from the underlying format, then bring the value into the domain
+        v = F.REPAIR[f[1]](gen_val(f[2], rng, big))
+        assert F.PRED[f[1]](v)
+        return v
     if k == 'Opt':
         return None if rng.random() < 0.15 else Some(gen_val(f[1], rng, big))
     if k == 'Tag':
@@ -324,14 +327,13 @@ def shapes(f, rng, cap=16):
     if k == 'Rep':
         E = shapes(f[1], rng, cap)
         out = [[]] + [[e] for e in E]
-        if not (f[1][0] == 'Tag' and len(f[1]) > 4):
-            out.append([E[0], E[-1]])
-            out.append([gen_val(f[1], rng) for _ in range(3)])
-        elif len(E) > 1 and E[0].t != E[-1].t:
-            out.append([E[0], E[-1]])
+        out.append([E[0], E[-1]])
+        out.append([gen_val(f[1], rng) for _ in range(3)])
         return capped(out)
     if k == 'Opt':
         return [None] + [Some(x) for x in shapes(f[1], rng, cap)]
+    if k == 'Check':
+        return [F.REPAIR[f[1]](x) for x in shapes(f[2], rng, cap)]
     if k == 'Tag':
         ch = f[3]
         if ch == 'random':
@@ -384,6 +386,9 @@ def blobs(f, v):
     elif k == 'Tag':
         for x in blobs(f[2](v.t), v.v):
             yield x
+    elif k == 'Check':
+        for x in blobs(f[2], v):
+            yield x
 
 
 def overflow_variants(f, v, rng, path=()):
@@ -412,6 +417,9 @@ def overflow_variants(f, v, rng, path=()):
         for i, e in enumerate(v[:2]):
             for x, p in overflow_variants(f[1], e, rng, path):
                 yield v[:i] + [x] + v[i + 1:], p
+    elif k == 'Check':
+        for x, p in overflow_variants(f[2], v, rng, path):
+            yield x, p
     elif k == 'Opt':
         if v is not None:
             for x, p in overflow_variants(f[1], v.v, rng, path):
@@ -591,7 +599,12 @@ class Run(object):
         marks = F.Marks()
         try:
             bs = F.enc(cls.fmt, v, marks)
-        except NoFit:
+        except NoFit as e:
+            # the generators must draw from exactly the domain of the format term (= Coq wf_val, checked by
+            # chk_enc on every value): a drawn value outside it is a harness defect, reported, never skipped
+            if not self.found:
+                self.tie_broken = 'generator produced a value outside the domain of %s (%s): %s' % (
+                    cls.coq, e, repr(F.val_json(v))[:300])
             return
         rep = {'class': cls.name, 'coq_fmt': cls.coq, 'value': F.val_json(v), 'bytes': hexs(bs),
                'how': 'PYTHONPATH=/repo:/verif/harness ; c15_classes.build_table() entry of this class: '
